@@ -4,7 +4,7 @@ use crate::cli::{self, Status};
 use crate::fmlrun;
 use crate::gen::prog::{generate, Profile};
 use crate::harness::*;
-use crate::ir::Prog;
+use crate::ir::*;
 use crate::refsem::{self, Outcome, Shape};
 use crate::render;
 use crate::tape::{hex, Tape};
@@ -135,8 +135,38 @@ fn probes() -> Vec<&'static str> {
 }
 
 fn judge(prog: &Prog, ctx: &mut Ctx, tape: &[u8], cli_level: u8) -> Judged {
+    judge_fuel(prog, ctx, tape, cli_level, refsem::DEFAULT_FUEL)
+}
+
+/// Long allocation histories: thousands to 10^5 records, so that the log outgrows every buffer
+/// (8 KiB, 64 KiB) on the way, ending normally, with an interpreter error, and with a panic
+/// (division by zero) - the records written before the end must all be there.
+fn long_histories() -> Vec<(String, Prog)> {
+    let mut out = vec![];
+    for n in [700i32, 3000, 20_000, 100_000] {
+        for (ename, ending) in [("ends-normally", E::Null), ("ends-in-unknown-method", mcall(E::Int(1), "nosuchmethod", vec![])), ("ends-in-division-by-zero", bin("/", E::Int(1), E::Int(0)))] {
+            for (kname, alloc) in [
+                ("arrays", E::Array(bx(bin("%", var("i"), E::Int(5))), bx(E::Int(0)))),
+                ("objects", E::Object(None, vec![Member::Field("a".into(), var("i")), Member::Method("m".into(), vec![], E::Int(1))])),
+            ] {
+                let body = E::Block(vec![alloc.clone(), assign("i", bin("+", var("i"), E::Int(1)))]);
+                let prog: Prog = vec![
+                    let_("i", E::Int(0)),
+                    E::While(bx(bin("<", var("i"), E::Int(n))), bx(body)),
+                    print("made ~\\n", vec![var("i")]),
+                    ending.clone(),
+                    print("end\\n", vec![]),
+                ];
+                out.push((format!("{}-{}-{}", n, kname, ename), prog));
+            }
+        }
+    }
+    out
+}
+
+fn judge_fuel(prog: &Prog, ctx: &mut Ctx, tape: &[u8], cli_level: u8, fuel: u64) -> Judged {
     ctx.eval();
-    let r = refsem::run(prog, refsem::DEFAULT_FUEL);
+    let r = refsem::run(prog, fuel);
     if r.outcome == Outcome::Fuel {
         ctx.exclude("reference-fuel");
         return Ok(());
@@ -348,6 +378,20 @@ impl Property for C16 {
     }
     fn max_shrink_iters(&self) -> u32 {
         300
+    }
+    fn fixed_parts(&self, ctx: &mut Ctx) -> Vec<Violation> {
+        let mut out = vec![];
+        for (i, (name, prog)) in long_histories().into_iter().enumerate() {
+            if !ctx.shard_mine(i) {
+                continue;
+            }
+            ctx.label("long-history-program");
+            if let Err(mut v) = judge_fuel(&prog, ctx, &[], 1, 5_000_000) {
+                v.detail = format!("[long history {}] {}", name, v.detail);
+                out.push(v);
+            }
+        }
+        out
     }
     fn judge_tape(&self, tape: &[u8], ctx: &mut Ctx) -> Judged {
         let mut t = Tape::new(tape);
